@@ -614,8 +614,10 @@ class Component(
     @contextmanager
     def _with_metadata(self, item: MetadataItem) -> Generator[None, None, None]:
         self._metadata_stack.append(item)
-        yield
-        self._metadata_stack.pop()
+        try:
+            yield
+        finally:
+            self._metadata_stack.pop()
 
     @property
     def name(self) -> str:
